@@ -29,6 +29,9 @@ CHECKS={
  'C13':dict(technique='property-based testing and exhaustive sweep: differential test of the hand-written SHA-256 against node:crypto on the tapped byte stream (all payload lengths 0..300 x UTF-8 widths x write splits, plus random sequences); metamorphic equal-pair and one-edit-mutant pairs for hash256/hash of compiled validators',
    text='Exploration: the digest routine is compared with an independent SHA-256 on every block/padding boundary; structural-fingerprint claims are checked as relations over generated pairs (equal spellings => equal digests; behaviourally different one-edit mutants => different digests).',
    note='Trusted: node:crypto; the tap on updateBytes; the separating value is found among generated values (a mutant pair without one is not judged).', ref='DESIGN.md section 2 C13'),
+ 'C15':dict(technique='round-trip property-based testing: describe() text of generated validators is fed back through the compiler; second-generation validators are compared with the first on generated values and hash256',
+   text='Exploration over the C01 program generator (all hard families counted in the evidence); the oracle is the round trip itself plus a declared-once check of the printed aliases.',
+   note='Trusted: beff as the judge of the described text (no tsc offline).', ref='DESIGN.md section 2 C15'),
  'C11':dict(technique='property-based testing: strict-mode verdicts of generated validators vs reference strict membership, with undeclared keys injected at random object positions',
    text='Exploration weighted to intersections/unions/nesting/records; oracle = reference "no undeclared key at any object position" + strict implies default.',
    note='Trusted: reference declared-key computation (intersection = union of members\' keys, union = matching branch, index signature admits all keys).', ref='DESIGN.md section 2 C11'),
